@@ -1,9 +1,128 @@
+(* C13 — Kubernetes lookups reflect the current pod holding an IP.
+
+   Model/K8s.v: a state is the informer's store (pod key -> pod) and the provider's memo
+   (ip -> memoised instance or nil); a history is a list of labels
+     Add p | Update old new | Delete p   (indexer change, then the invalidation handler)
+     Lookup ip                           (Peek, or one IP taken from IpSink)
+   and [run cfg init ls] is the state after the history [ls].  Vocabulary used below:
+     holds st ip p        p is the stored (current) version of some pod, indexable p = true
+                          (has an IP, phase not Succeeded/Failed, not being deleted, not host
+                          network, IP <> host IP) and p_ip p = ip
+     unique_holder st ip  at most one such p  (C13's "pods with distinct IPs", needed only for
+                          the looked-up IP and only at the moment of the lookup)
+     history_ok cfg s ls  every delivery of ls is one client-go's processDeltas can make in the
+                          state where it is made: Add for a key that is not stored, Update old new
+                          with old = the stored version of new's key, Delete of the stored version
+     derive cfg p         MkInst (ns ++ "/" ++ name) (tags of labels ++ tags of annotations)
+   Regexes are arbitrary functions [re_find : key -> option (whole match, [(group name, text)])]
+   (oracle for regexp.FindStringSubmatch + SubexpNames): every theorem holds for all of them. *)
 From stdpp Require Import gmap.
 From GS Require Import Base.Bytes Model.K8s Proofs.K8s.
 
-Theorem C13_memo_coherent_partial : forall cfg ls,
+(* The memo invariant, after ANY history: a memoised instance is the one derived from a pod
+   version that is stored now, is indexable and holds that IP (so never from a replaced or
+   deleted version); with at most one indexable pod on the IP it is the instance of THE pod
+   holding the IP. *)
+Theorem C13_memo_coherent : forall cfg ls,
   history_ok cfg init ls ->
-  forall ip i, memo (run cfg init ls) !! ip = Some (Some i) ->
-  exists p, holds (store (run cfg init ls)) ip p /\ i = derive cfg p.
-Proof. exact memo_coherent. Qed.
-Print Assumptions C13_memo_coherent_partial.
+  let s := run cfg init ls in
+  forall ip i, memo s !! ip = Some (Some i) ->
+    (exists p, holds (store s) ip p /\ i = derive cfg p) /\
+    (unique_holder (store s) ip -> forall p, holds (store s) ip p -> i = derive cfg p).
+Proof. exact memo_coherent_full. Qed.
+Print Assumptions C13_memo_coherent.
+
+(* Every lookup in every history (whatever was looked up and memoised before, whatever comes
+   after): it answers [derive p] for the one indexable pod p holding the IP at that moment, and
+   nothing exactly when no indexable pod holds it. *)
+Theorem C13_lookup_current : forall cfg before ip after,
+  history_ok cfg init (before ++ Lookup ip :: after) ->
+  let s := run cfg init before in
+  unique_holder (store s) ip ->
+  match fst (lookup cfg s ip) with
+  | Some i => exists p, holds (store s) ip p /\ i = derive cfg p /\
+                        forall q, holds (store s) ip q -> q = p
+  | None => forall p, ~ holds (store s) ip p
+  end.
+Proof. exact lookup_current_full. Qed.
+Print Assumptions C13_lookup_current.
+
+(* "Answers never come from a pod version that has since been updated or deleted" needs no
+   hypothesis on IPs at all. *)
+Theorem C13_never_stale : forall cfg before ip after i,
+  history_ok cfg init (before ++ Lookup ip :: after) ->
+  let s := run cfg init before in
+  fst (lookup cfg s ip) = Some i ->
+  exists k p, store s !! k = Some p /\ indexable p = true /\ p_ip p = ip /\ i = derive cfg p.
+Proof. exact lookup_never_stale. Qed.
+Print Assumptions C13_never_stale.
+
+(* Memoisation is unobservable: the answer equals the one computed from the index alone. *)
+Theorem C13_memo_transparent : forall cfg before ip after,
+  history_ok cfg init (before ++ Lookup ip :: after) ->
+  let s := run cfg init before in
+  unique_holder (store s) ip ->
+  fst (lookup cfg s ip) = fst (lookup cfg (MkSt (store s) ∅) ip).
+Proof. exact memo_transparent. Qed.
+Print Assumptions C13_memo_transparent.
+
+(* The invariant under the weakest contract the code needs from the informer
+   ([delivery_safe], Model/K8s.v: the indexable stored version a delivery replaces or removes is
+   announced as an indexable pod with the same IP; an Add does not overwrite an indexable one). *)
+Theorem C13_memo_coherent_weak_contract : forall cfg ls,
+  history_safe cfg init ls ->
+  let s := run cfg init ls in
+  forall ip i, memo s !! ip = Some (Some i) ->
+    (exists p, holds (store s) ip p /\ i = derive cfg p) /\
+    (unique_holder (store s) ip -> forall p, holds (store s) ip p -> i = derive cfg p).
+Proof. exact memo_coherent_safe. Qed.
+Print Assumptions C13_memo_coherent_weak_contract.
+
+(* The three-way tag-name rule of getTagNameFromRegex, for every regex and key.
+   [tag_capture groups t]: t is the text of the first group named "tag" that captured non-empty
+   text; [no_tag_capture groups]: no group named "tag" captured any text.  "" = no tag. *)
+Theorem C13_tag_rule : forall (re : regex) (key : str),
+  match re_find re key with
+  | None => tag_name re key = []
+  | Some (whole, groups) =>
+      (forall t, tag_capture groups t -> tag_name re key = t) /\
+      (no_tag_capture groups -> whole <> [] -> tag_name re key = key) /\
+      (no_tag_capture groups -> whole = [] -> tag_name re key = []) /\
+      ((exists t, tag_capture groups t) \/ no_tag_capture groups)
+  end.
+Proof. exact tag_rule. Qed.
+Print Assumptions C13_tag_rule.
+
+(* The instance of a pod: identity ns/name; one tag "name:value" for every label whose key gets
+   a tag name from the label regex and every annotation whose key gets one from the annotation
+   regex, nothing else; a nil regex contributes nothing. *)
+Theorem C13_instance_of_pod : forall cfg p,
+  i_id (derive cfg p) = p_ns p ++ c_slash :: p_name p /\
+  forall tag, In tag (i_tags (derive cfg p)) <->
+    (exists r k v, c_label_re cfg = Some r /\ In (k, v) (p_labels p) /\ tag_name r k <> [] /\
+                   tag = tag_name r k ++ c_colon :: v) \/
+    (exists r k v, c_annot_re cfg = Some r /\ In (k, v) (p_annots p) /\ tag_name r k <> [] /\
+                   tag = tag_name r k ++ c_colon :: v).
+Proof. exact derive_spec. Qed.
+Print Assumptions C13_instance_of_pod.
+
+(* The hypothesis is used: without "at most one indexable pod per IP" the second half of
+   C13_memo_coherent fails (two running pods share an IP; one is memoised, the other holds it). *)
+Theorem C13_needs_unique_ip :
+  exists cfg ls ip i p,
+    history_ok cfg init ls /\
+    memo (run cfg init ls) !! ip = Some (Some i) /\
+    holds (store (run cfg init ls)) ip p /\
+    i <> derive cfg p.
+Proof. exact needs_unique_ip. Qed.
+Print Assumptions C13_needs_unique_ip.
+
+(* So is the informer contract: after a delivery outside it (a Delete announcing a version that
+   is not the stored one) a lookup answers an instance although no pod holds the IP. *)
+Theorem C13_needs_informer_contract :
+  exists cfg ls ip i,
+    ~ history_safe cfg init ls /\
+    fst (lookup cfg (run cfg init ls) ip) = Some i /\
+    forall p, ~ holds (store (run cfg init ls)) ip p.
+Proof. exact needs_informer_contract_ex. Qed.
+Print Assumptions C13_needs_informer_contract.
